@@ -42,6 +42,7 @@ const MSG: u32 = 0x460;
 const CALLARGS: u32 = 0x500; // a well-formed `invoke` call payload
 const SCRATCH: u32 = 0x1000; // 256 bytes of 0xAA, destination of in-bounds writes
 const RES: u32 = 0x2000; // 8 bytes per step
+const BIG: u32 = 0x3000; // case-specific payloads (zero in the common image)
 const TAIL: u32 = 0xFFF0; // last 16 bytes of memory
 const BUDGET: u64 = 1_000_000_000;
 
@@ -184,6 +185,19 @@ fn module_of(script: &Script, mem: &[u8]) -> Vec<u8> {
     // data segments: only the non-zero parts of the initial memory
     for (off, len) in [(KEYS, 0x100u32), (SRC, 0x100), (PK, 0x80), (CALLARGS, 0x40), (SCRATCH, 0x100), (TAIL, 16)] {
         m.data.push((off, mem[off as usize..(off + len) as usize].to_vec()));
+    }
+    // case-specific data (zero in the common image): one segment per non-zero run
+    let (mut i, hi) = (BIG as usize, TAIL as usize);
+    while i < hi {
+        if mem[i] != 0 {
+            let j = i;
+            while i < hi && mem[i] != 0 {
+                i += 1;
+            }
+            m.data.push((j as u32, mem[j..i].to_vec()));
+        } else {
+            i += 1;
+        }
     }
     let fidx = m.imports.len() as u32;
     m.exports.push(("init_c".into(), ExportKind::Func(fidx)));
@@ -829,6 +843,35 @@ fn run_engine(cli: &Cli, report: &Report) {
             special.push((p, s));
         }
     }
+    // `invoke` of another contract: parameter length around the limit of the parameter set
+    // (1024 before P5, 65535 from P5), entrypoint name lengths around 100 and characters
+    // outside the name alphabet, payload one byte short / exact / one byte long
+    let mut payload_cases: Vec<(Params, Script, Vec<u8>)> = vec![];
+    for p in [P4, P5, P7] {
+        for plen in [0usize, 1, 1023, 1024, 1025, 4096, 40000] {
+            for (nlen, ch) in [(0usize, b'a'), (1, b'a'), (99, b'z'), (100, b'a'), (101, b'a'), (3, b' '), (3, 0x7f), (3, 0xC3), (2, b'.')] {
+                let mut mem = mem0.clone();
+                let b = BIG as usize;
+                mem[b..b + 8].copy_from_slice(&9u64.to_le_bytes());
+                mem[b + 16..b + 18].copy_from_slice(&(plen as u16).to_le_bytes());
+                for i in 0..plen.min(64) {
+                    mem[b + 18 + i] = 0x40 + (i % 7) as u8;
+                }
+                let at = b + 18 + plen;
+                mem[at..at + 2].copy_from_slice(&(nlen as u16).to_le_bytes());
+                for i in 0..nlen {
+                    mem[at + 2 + i] = ch;
+                }
+                mem[at + 2 + nlen..at + 2 + nlen + 8].copy_from_slice(&5u64.to_le_bytes());
+                let total = (18 + plen + 2 + nlen + 8) as u64;
+                for len in [total - 1, total, total + 1] {
+                    payload_cases.push((p, vec![c(F::Invoke, &[1, BIG as u64, len])], mem.clone()));
+                }
+            }
+        }
+    }
+    report.set_extra("invoke_payload_cases", json!(payload_cases.len()));
+    payload_cases.par_iter().for_each(|(p, s, mem)| check_script(report, s, &ctx(*p), mem, true));
     report.set_extra("context_cases", json!(special.len()));
     special.par_iter().for_each(|(p, s)| check_script(report, s, &ctx(*p), &mem0, true));
     special.par_iter().for_each(|(p, s)| budget_sweep(report, s, &[], &ctx(*p), &mem0, quick));
